@@ -314,6 +314,48 @@ Proof.
     transitivity (a0 * (1 * Y (Z.of_nat j))); [ring|]. rewrite D. field. exact Hne.
 Qed.
 
+Theorem tv_diffeq_full_r S (f : tfilt) h zero mem fuel f' h' p :
+  keys_ok (t_num f) -> keys_ok (t_den f) ->
+  prepare h f = Ok (BOk f' h') -> tcodegen f' zero = Ok (TGen p) ->
+  (forall memory, round_spec S (stream_iters (t_num f')) (stream_iters (t_den f')) p fuel 0
+             (unpack (p_mvars (tp_prog p)) memory empty_env)
+             (assign_all (p_dvars (tp_prog p)) zero empty_env)
+             (run_tv S (TGen p) f' memory zero fuel)) ->
+  let lm := t_mem_size f' in
+  let ys := yields (run_tv S (TGen p) f' (normalise_memory lm zero mem) zero fuel) in
+  let X := xrel S 0 (fun _ => zero) in
+  let Y := ysig (past lm zero mem) ys in
+  forall j, (j < length ys)%nat ->
+  forall a0, gain_at (snapshot S j) f = Some a0 -> a0 <> 0 ->
+    a0 * Y (Z.of_nat j)
+    = psum (vtab (snapshot S j) (t_num f)) (fun k => X (Z.of_nat j - k)%Z)
+      - psum (feedback (vtab (snapshot S j) (t_den f))) (fun k => Y (Z.of_nat j - k)%Z).
+Proof.
+  intros Kn Kd Hp Hc Hwf lm ys X Y j Hj a0 Hg Hne.
+  unfold gain_at, t_getitem in Hg.
+  destruct (d_get (t_den f) 0) as [c|] eqn:Eg.
+  2:{ simpl in Hg. injection Hg as <-. exfalso. apply Hne. reflexivity. }
+  apply d_get_some_in in Eg. destruct c as [q|e0].
+  - (* a number as gain: the filter goes to the code generator as it is *)
+    injection Hg as ->.
+    assert (f' = f) as ->.
+    { unfold prepare in Hp. rewrite (any_negative_ok f Kn Kd) in Hp. unfold t_getitem in Hp.
+      rewrite (d_get_in _ _ _ (proj1 Kd) Eg) in Hp. injection Hp as <- _. reflexivity. }
+    exact (diffeq_generated_r S f a0 zero p mem fuel Kn Kd Eg Hne Hc Hwf j Hj).
+  - (* a Stream as gain: divided through *)
+    destruct (prepare_stream h f e0 Kn Kd Eg) as (f2 & h2 & Hp2 & Kn2 & Kd2 & H1 & Hms & Hv).
+    rewrite Hp in Hp2. injection Hp2 as <- <-.
+    pose proof (diffeq_generated_r S f' 1 zero p mem fuel Kn2 Kd2 H1 ltac:(discriminate) Hc Hwf j Hj) as D.
+    fold lm in D. fold ys in D. fold X in D. fold Y in D.
+    destruct (Hv (snapshot S j) a0 Hg Hne (fun k => X (Z.of_nat j - k)%Z)) as [E1 _].
+    destruct (Hv (snapshot S j) a0 Hg Hne (fun k => Y (Z.of_nat j - k)%Z)) as [_ E2].
+    rewrite E1, E2 in D.
+    set (A := psum (vtab (snapshot S j) (t_num f)) (fun k => X (Z.of_nat j - k)%Z)) in *.
+    set (B := psum (feedback (vtab (snapshot S j) (t_den f))) (fun k => Y (Z.of_nat j - k)%Z)) in *.
+    transitivity (a0 * (1 * Y (Z.of_nat j))); [ring|]. rewrite D. field. exact Hne.
+Qed.
+
+
 (* keys_ok as a boolean test *)
 Fixpoint znodupb (l : list Z) : bool :=
   match l with [] => true | x :: r => negb (existsb (Z.eqb x) r) && znodupb r end.
